@@ -692,6 +692,47 @@ pub fn chunked_vs_whole(sc: &VmSc, chunk: usize, k: usize, obs: &mut Obs) -> Vec
     out
 }
 
+/// The characters `PrintChar` is instantiated for by the harness (ASCII, Latin-1, 2-, 3- and 4-byte UTF-8, the
+/// first and the last scalar values around the surrogate gap).
+pub const PRINT_CHARS: [char; 12] = ['a', ' ', '\0', '\u{7f}', '\u{80}', 'é', 'ÿ', 'λ', '→', '\u{d7ff}', '🦀', '\u{10ffff}'];
+
+fn print_char_probe(sc: &VmSc, c: char, obs: &mut Obs) -> Vec<Tagged> {
+    use push::instruction::{printing::PrintChar, Instruction};
+    let mut out = Vec::new();
+    let Ok(state) = build_real(&sc.init) else { return out };
+    macro_rules! go {
+        ($($ch:literal),+) => {
+            match c {
+                $($ch => Some(catch(move || PrintChar::<$ch>.perform(state))),)+
+                _ => None,
+            }
+        };
+    }
+    let Some(r) = go!('a', ' ', '\0', '\u{7f}', '\u{80}', 'é', 'ÿ', 'λ', '→', '\u{d7ff}', '🦀', '\u{10ffff}') else { return out };
+    obs.hit("probe.print-char-instantiation");
+    match r {
+        Err(p) => out.push(tag(Prop::C03, "never-panics", format!("panic:PrintChar<{:?}>", c), format!("PrintChar::<{c:?}> panicked: {}", p.message))),
+        Ok(Err(e)) => out.push(tag(
+            Prop::C01,
+            "semantics",
+            format!("semantics:PrintChar<{:?}>", c),
+            format!("PrintChar::<{c:?}> failed with `{}`", e.error()),
+        )),
+        Ok(Ok(st)) => {
+            let sn = snap(&st);
+            if sn.out != c.to_string() {
+                out.push(tag(
+                    Prop::C01,
+                    "semantics",
+                    format!("semantics:PrintChar<{:?}>", c),
+                    format!("PrintChar::<{c:?}> printed {:?} (bytes {:?}), expected {:?}", sn.out, sn.out.as_bytes(), c.to_string()),
+                ));
+            }
+        }
+    }
+    out
+}
+
 pub fn simulate(sc: &VmSc, obs: &mut Obs) -> Vec<Tagged> {
     if sc.long {
         let mut out = long_run(sc, obs);
@@ -703,6 +744,15 @@ pub fn simulate(sc: &VmSc, obs: &mut Obs) -> Vec<Tagged> {
         return out;
     }
     let mut out = Vec::new();
+    // the character-printing instruction is generic over its character (`PrintChar<const CHAR>`); the interpreter's
+    // instruction set names three instantiations only. A program that prints a one-character string is also run
+    // through the instantiation for that character: both must print exactly that character.
+    if let [Prog::I(Ins::PrintString(text))] = &sc.init.program[..] {
+        let mut cs = text.chars();
+        if let (Some(c), None) = (cs.next(), cs.next()) {
+            out.extend(print_char_probe(sc, c, obs));
+        }
+    }
     if !crate::vmgen::all_inputs_bound(sc) {
         // (only reachable through shrinking) the properties exclude unbound inputs
         return out;
